@@ -419,6 +419,17 @@ func ruleUpgradeOrder(c *eng.Ctx) {
 				}
 				c.MustPass(rule, "UpgradeRepo:failed-upgrade→re-upload-old-config", eng.After(ui), r, eng.Union(eng.SuccessCut(u), eng.CallCut(resave...)), "the upgrade succeeded, or the old raw config was uploaded again")
 			}
+			// whatever the failed attempt left under the config name is removed before the
+			// re-upload (backends without atomic replace refuse to overwrite an existing file)
+			var removes []ssa.CallInstruction
+			for _, call := range eng.Calls(fn) {
+				if eng.IsMethodOf(call, be, "Remove") {
+					removes = append(removes, call)
+				}
+			}
+			for _, s := range resave {
+				c.MustPass(rule, "UpgradeRepo:leftover-removed→re-upload-old-config", eng.After(ui), s.(ssa.Instruction), eng.CallCut(removes...), "be.Remove(config) executed unconditionally before the old config is uploaded again")
+			}
 			for _, s := range resave {
 				okRaw := false
 				if len(lr) > 0 {
